@@ -81,20 +81,16 @@ Proof. exact meta_tail. Qed.
 Print Assumptions C16_meta_none_refuted.
 
 (* ---- JUnit handler over event histories ------------------------------------------ *)
-(* the handler raises KeyError exactly on the histories outside the region *)
-Theorem C16_junit_crashes_iff : forall h, junit_crashes h = negb (fresh_failure_or_known_label h).
-Proof. exact junit_crashes_iff. Qed.
-Print Assumptions C16_junit_crashes_iff.
+(* the handler as it is now (commit 12c14c85) never raises, for every history *)
+Theorem C16_junit_never_crashes : forall h, exists s t w, junit_run h = Running s t w.
+Proof. exact junit_never_crashes. Qed.
+Print Assumptions C16_junit_never_crashes.
 
-Theorem C16_junit_never_crashes_partial : forall h, fresh_failure_or_known_label h = true ->
-  exists s t w, junit_run h = Running s t w.
-Proof. exact junit_partial. Qed.
-Print Assumptions C16_junit_never_crashes_partial.
-
-(* the same failure found in fuzzing and again by the stateful phase *)
-Theorem C16_junit_never_crashes_refuted : exists h l, junit_run h = Crash l.
-Proof. exists h_rediscovered, 2. exact junit_refuted. Qed.
-Print Assumptions C16_junit_never_crashes_refuted.
+(* ... and every FAILURE-status scenario leaves at least one failure element in the test case of its label *)
+Theorem C16_junit_failure_is_reported : forall h s t w l,
+  junit_run h = Running s t w -> In l (failure_labels h) -> has_failure l t = true.
+Proof. exact junit_failure_reported. Qed.
+Print Assumptions C16_junit_failure_is_reported.
 
 Theorem C16_junit_region_satisfiable : exists h, fresh_failure_or_known_label h = true /\
   match junit_run h with
@@ -104,28 +100,55 @@ Theorem C16_junit_region_satisfiable : exists h, fresh_failure_or_known_label h 
 Proof. exists h_fine. exact junit_fine. Qed.
 Print Assumptions C16_junit_region_satisfiable.
 
+(* regression sentinel: the handler BEFORE the fix (failures[label]) raises KeyError exactly on the
+   histories outside the region; the witness is the failure found in fuzzing and again by the stateful phase *)
+Theorem C16_junit_old_handler_crashes_iff : forall h, junit_crashes_old h = negb (fresh_failure_or_known_label h).
+Proof. exact junit_crashes_iff. Qed.
+Print Assumptions C16_junit_old_handler_crashes_iff.
+
+Theorem C16_junit_old_handler_never_crashes_partial : forall h, fresh_failure_or_known_label h = true ->
+  exists s t w, junit_run_old h = Running s t w.
+Proof. exact junit_partial. Qed.
+Print Assumptions C16_junit_old_handler_never_crashes_partial.
+
+Theorem C16_junit_old_handler_never_crashes_refuted : exists h l, junit_run_old h = Crash l.
+Proof. exists h_rediscovered, 2. exact junit_refuted. Qed.
+Print Assumptions C16_junit_old_handler_never_crashes_refuted.
+
 (* ---- cassette writers ------------------------------------------------------------ *)
-(* every interaction delivered through ScenarioFinished events is written exactly once, in
-   order, and the file is closed - provided no entry raises inside the writer thread *)
-Theorem C16_each_interaction_once_partial : forall w h, no_entry_raises w h = true ->
-  written w h = (complete (delivered h), Closed).
-Proof. exact each_interaction_once. Qed.
+(* HAR: every interaction delivered through ScenarioFinished events is written exactly once, in order,
+   and the file is closed - for every history, with or without sanitization (commit 8fd7266e) *)
+Theorem C16_each_interaction_once_har : forall sanitize preserve h,
+  written {| w_fmt := HAR; w_sanitize := sanitize; w_preserve := preserve |} h = (complete (delivered h), Closed).
+Proof. exact once_har. Qed.
+Print Assumptions C16_each_interaction_once_har.
+
+(* VCR: the same, unless a response names a codec that exists and raises on decode (commit ad7dc72b made
+   unknown charsets harmless) *)
+Theorem C16_each_interaction_once_partial : forall sanitize preserve h, no_raising_codec h = true ->
+  written {| w_fmt := VCR; w_sanitize := sanitize; w_preserve := preserve |} h = (complete (delivered h), Closed).
+Proof. exact once_vcr. Qed.
 Print Assumptions C16_each_interaction_once_partial.
 
 (* unconditionally: nothing is invented, duplicated or reordered *)
 Theorem C16_written_is_prefix_of_delivered : forall w h, exists rest, delivered h = map fst (fst (written w h)) ++ rest.
-Proof. exact written_is_prefix. Qed.
+Proof. exact written_is_prefix_now. Qed.
 Print Assumptions C16_written_is_prefix_of_delivered.
 
-(* HAR with sanitization on and a URL carrying userinfo; VCR with an unknown charset *)
+(* VCR with charset=undefined *)
 Theorem C16_each_interaction_once_refuted : exists w h i, In i (delivered h) /\ ~ In i (map fst (fst (written w h))) /\
   snd (written w h) = Died.
 Proof. exact once_refuted_ex. Qed.
 Print Assumptions C16_each_interaction_once_refuted.
 
-Theorem C16_each_interaction_once_refuted_vcr : exists h, delivered h = [1; 2; 3] /\ written vcr_default h = ([(1, true); (2, false)], Died).
-Proof. exists [CScenario [i_plain 1; i_bogus 2; i_plain 3]]. exact once_refuted_vcr. Qed.
-Print Assumptions C16_each_interaction_once_refuted_vcr.
+(* regression sentinel: the writers before the two fixes lost exchanges where the present ones do not *)
+Theorem C16_old_writers_lost_exchanges : 
+  written_old har_sanitized [CScenario [i_user 1]; CScenario [i_plain 2]] = ([], Died)
+  /\ written har_sanitized [CScenario [i_user 1]; CScenario [i_plain 2]] = (complete [1; 2], Closed)
+  /\ written_old vcr_default [CScenario [i_plain 1; i_bogus 2; i_plain 3]] = ([(1, true); (2, false)], Died)
+  /\ written vcr_default [CScenario [i_plain 1; i_bogus 2; i_plain 3]] = (complete [1; 2; 3], Closed).
+Proof. exact old_writers_lost. Qed.
+Print Assumptions C16_old_writers_lost_exchanges.
 
 (* ---- entries are a function of one interaction ------------------------------------ *)
 (* the writer loops carry Python locals (post_data, response, headers, checks, status) from one
